@@ -679,8 +679,15 @@ pub fn handle_xreadgroup(storage: &Arc<StorageEngine>, db: usize, parts: &[RespF
     for (key, stream, after_id) in reads {
         // Read entries for the group
         match stream.read_group(&group_name, &consumer_name, after_id, count, noack) {
-            Ok(entries) if !entries.is_empty() => {
-                storage.mark_key_modified(db, key)?;
+            Ok((entries, changed)) => {
+                // A read that reports no entry can still have registered the consumer
+                // or counted deliveries
+                if changed {
+                    storage.mark_key_modified(db, key)?;
+                }
+                if entries.is_empty() {
+                    continue;
+                }
                 let mut stream_result = Vec::new();
                 
                 // Stream key
@@ -707,7 +714,6 @@ pub fn handle_xreadgroup(storage: &Arc<StorageEngine>, db: usize, parts: &[RespF
                 stream_result.push(RespFrame::Array(Some(entry_frames)));
                 results.push(RespFrame::Array(Some(stream_result)));
             }
-            Ok(_) => {} // Empty result, skip
             Err(e) if e.contains("NOGROUP") => {
                 return Ok(RespFrame::error(e));
             }
